@@ -146,7 +146,7 @@ def main():
     a = ap.parse_args()
     ms = mutants.all_mutants()
     if a.only:
-        ms = [m for m in ms if a.only in m["id"]]
+        ms = [m for m in ms if any(o and o in m["id"] for o in a.only.split(","))]
     if a.prop:
         sel = []
         for m in ms:
